@@ -108,10 +108,11 @@ def run(tier, seed):
     from bind import replay_deferred as rd
     from bisturi import deferred
     quick = tier == "quick"
-    res = mc(3 if quick else 4, False, 8, False)
-    v.add_tlc(res, "MC_Deferred all well-formed trees with <= %d operator nodes (chooses in list form)" % (3 if quick else 4))
-    res2 = mc(2 if quick else 3, True, 8, True)
-    v.add_tlc(res2, "MC_Deferred richer operator set, every call form of chooses / if_true_then_else, <= %d operator nodes" % (2 if quick else 3))
+    # (4 operator nodes is ~110k trees: TLC needs over 45 minutes just to build and order that set; thorough goes wider instead)
+    res = mc(3, False, 8, not quick)
+    v.add_tlc(res, "MC_Deferred all well-formed trees with <= 3 operator nodes (%s)" % ("chooses in list form" if quick else "every call form"))
+    res2 = mc(2, True, 8, True) if quick else mc(3, True, 8, False)
+    v.add_tlc(res2, "MC_Deferred richer operator set, <= %d operator nodes" % (2 if quick else 3))
     world = rd.World()
     trees = res.emits + res2.emits
     n_exec = 0
@@ -217,8 +218,8 @@ def run(tier, seed):
     if recs:
         v.sample({"direction": "code->spec", "tree": recs[0]["tree"], "real_program": recs[0]["prog"]})
     v.cov["exhaustive"] = True
-    v.cov["rule"] = ("all well-formed syntax trees with <= %d operator nodes over {sub, lt, neg, chooses/if_true_then_else in every call "
-                     "form} and leaves {F1, F2, K} (+ sequence-field leaves at depth 1), and <= 2 nodes over {sub, lshift, lt, eq, and}; "
-                     "non-trivial = program of >= 4 instructions; distinct trees." % (3 if quick else 4))
+    v.cov["rule"] = ("all well-formed syntax trees with <= 3 operator nodes over {sub, lt, neg, chooses/if_true_then_else} and leaves "
+                     "{F1, F2, K} (+ sequence-field leaves at depth 1), and <= %d nodes over {sub, lshift, lt, eq, and}; random trees of "
+                     "<= 7 nodes over the full tables; non-trivial = program of >= 4 instructions; distinct trees." % (2 if quick else 3))
     v.assumptions = ["values are terms of the free algebra for the structural half; concrete half uses operand samples " + repr(SAMPLES)]
     return v.finish()
